@@ -10,51 +10,53 @@ use vh_lite::{read_cases, drive, drive_group, quiet_panics, Out};
 
 mod tc_left__par;
 mod tc_left__src1;
-mod tc_left__perm1;
-mod tc_nonlin__par;
-mod tc_nonlin__str;
-mod mutual__run;
-mod mutual__redecl;
-mod mutual__str;
-mod scc_chain__perm1;
-mod diamond__par;
-mod repeated__perm1;
-mod three_dyn__par;
-mod three_dyn__str;
-mod conds__pari;
-mod conds__srcred;
-mod conds__permpar;
-mod count_up__topar;
-mod multi_head__ren;
-mod facts__src0;
+mod tc_left__runpar;
+mod tc_left__strpar;
+mod tc_nonlin__ren;
+mod mutual__to;
+mod mutual__srcto;
+mod mutual__perm1;
+mod scc_chain__par;
+mod scc_chain__str;
+mod consts__pari;
+mod repeated__str;
+mod three_dyn__perm1;
+mod four_dyn__par;
+mod conds__src0;
+mod conds__runhead;
+mod expr_args__par;
+mod multi_head__par;
+mod facts__ser;
+mod facts__src2;
 mod facts__srcpar;
 mod opt_cols__ser;
 mod opt_cols__src2;
-mod cartesian__par;
-mod same_gen__perm2;
-mod not_reorderable__pari;
-mod pre_join_rec__par;
-mod two_inputs__ser;
-mod two_inputs__src0;
-mod two_inputs__srcpar;
-mod wild__ser;
-mod ternary__ren;
-mod bound_mix__perm1;
-mod join_chain__par;
-mod join_chain__strpar;
-mod reach__topar;
-mod lag_right__par;
-mod lag_right__str;
-mod lag_three__ser;
-mod lag_mid__perm1;
-mod lag_late_delta__par;
-mod multi_head_rec__topar;
-mod sp_dual__run;
-mod sp_dual__redecl;
-mod sp_weighted__ser;
-mod longest_capped__to;
-mod set_reach__mrt;
-mod set_reach__init;
+mod opt_cols__srcpar;
+mod same_gen__topar;
+mod not_reorderable__ser;
+mod not_reorderable__permpar;
+mod pre_join_rec__ren;
+mod two_inputs__mrt;
+mod two_inputs__init;
+mod two_inputs__permpar;
+mod ternary__par;
+mod ternary__strpar;
+mod bound_mix__str;
+mod join_chain__ren;
+mod reach__ser;
+mod self_join3__ser;
+mod lag_right__perm1;
+mod lag_left__par;
+mod lag_three__topar;
+mod lag_mid__str;
+mod multi_head_rec__ser;
+mod sp_dual__par;
+mod sp_dual__src1;
+mod sp_dual__runpar;
+mod sp_weighted__pari;
+mod set_reach__ser;
+mod set_reach__src0;
+mod set_reach__runhead;
 mod cp__ser;
 mod lat_tree__ser;
 mod lex_lat__ser;
@@ -62,105 +64,108 @@ mod lat_two_keys__pari;
 mod lat_pre_join__pari;
 mod lat_val_bound__pari;
 mod lat_input__gen;
-mod lat_input__runpar;
-mod count_paths__mrt;
-mod count_paths__init;
-mod neg_basic__run;
-mod neg_basic__redecl;
-mod neg_basic__exp;
-mod agg_depth__to;
-mod agg_user__par;
-mod agg_bound_mix__par;
-mod agg_empty_rel__par;
-mod agg_const_args__exppar;
-mod disj__topar;
-mod disj__srcred;
+mod lat_input__init3;
+mod count_paths__topar;
+mod count_paths__srcred;
+mod neg_basic__par;
+mod neg_basic__src1;
+mod neg_basic__runpar;
+mod agg_minmaxsum__ser;
+mod agg_lattice__ser;
+mod neg_rec_after__ser;
+mod agg_empty__ser;
+mod agg_empty_rel__to;
+mod agg_pre_join__par;
+mod disj__mrt;
+mod disj__init;
 mod disj__permpar;
 mod pat_args__ser;
 mod rep_expr__exp;
 mod neg_in_disj__par;
 mod mac_basic__topar;
 mod mac_basic__srcred;
-mod mac_capture__par;
-mod mac_nested__exppar;
-mod mac_local_names__pari;
-mod mac_disj__ser;
-mod stress_set__ser;
-mod rnd_core_01__pari;
-mod rnd_core_04__par;
-mod rnd_core_07__ser;
-mod rnd_core_09__pari;
-mod rnd_core_12__par;
-mod rnd_core_15__ser;
-mod rnd_core_17__pari;
-mod rnd_core_20__par;
-mod rnd_core_23__ser;
-mod rnd_core_25__pari;
-mod rnd_core_28__par;
-mod rnd_agg_01__ser;
-mod rnd_agg_03__pari;
-mod rnd_agg_06__par;
-mod rnd_agg_09__ser;
-mod rnd_agg_11__pari;
-mod rnd_agg_14__par;
-mod rnd_prec_01__to;
-mod rnd_prec_03__par;
-mod rnd_prec_04__topar;
-mod rnd_prec_06__pari;
-mod rnd_prec_08__ser;
-mod rnd_prea_02__ser;
-mod rnd_prea_04__pari;
-mod rnd_prea_07__par;
+mod mac_basic__exppar;
+mod mac_nested__pari;
+mod mac_local_names__ser;
+mod mac_block__exp;
+mod stress_lat__par;
+mod rnd_core_01__ser;
+mod rnd_core_03__pari;
+mod rnd_core_06__par;
+mod rnd_core_09__ser;
+mod rnd_core_11__pari;
+mod rnd_core_14__par;
+mod rnd_core_17__ser;
+mod rnd_core_19__pari;
+mod rnd_core_22__par;
+mod rnd_core_25__ser;
+mod rnd_core_27__pari;
+mod rnd_core_30__par;
+mod rnd_agg_03__ser;
+mod rnd_agg_05__pari;
+mod rnd_agg_08__par;
+mod rnd_agg_11__ser;
+mod rnd_agg_13__pari;
+mod rnd_prec_01__par;
+mod rnd_prec_02__topar;
+mod rnd_prec_04__pari;
+mod rnd_prec_06__ser;
+mod rnd_prec_07__to;
+mod rnd_prea_01__par;
+mod rnd_prea_04__ser;
+mod rnd_prea_06__pari;
 
 fn lookup(name: &str) -> fn() -> Box<dyn Driven> {
    match name {
       "tc_left__par" => tc_left__par::make,
       "tc_left__src1" => tc_left__src1::make,
-      "tc_left__perm1" => tc_left__perm1::make,
-      "tc_nonlin__par" => tc_nonlin__par::make,
-      "tc_nonlin__str" => tc_nonlin__str::make,
-      "mutual__run" => mutual__run::make,
-      "mutual__redecl" => mutual__redecl::make,
-      "mutual__str" => mutual__str::make,
-      "scc_chain__perm1" => scc_chain__perm1::make,
-      "diamond__par" => diamond__par::make,
-      "repeated__perm1" => repeated__perm1::make,
-      "three_dyn__par" => three_dyn__par::make,
-      "three_dyn__str" => three_dyn__str::make,
-      "conds__pari" => conds__pari::make,
-      "conds__srcred" => conds__srcred::make,
-      "conds__permpar" => conds__permpar::make,
-      "count_up__topar" => count_up__topar::make,
-      "multi_head__ren" => multi_head__ren::make,
-      "facts__src0" => facts__src0::make,
+      "tc_left__runpar" => tc_left__runpar::make,
+      "tc_left__strpar" => tc_left__strpar::make,
+      "tc_nonlin__ren" => tc_nonlin__ren::make,
+      "mutual__to" => mutual__to::make,
+      "mutual__srcto" => mutual__srcto::make,
+      "mutual__perm1" => mutual__perm1::make,
+      "scc_chain__par" => scc_chain__par::make,
+      "scc_chain__str" => scc_chain__str::make,
+      "consts__pari" => consts__pari::make,
+      "repeated__str" => repeated__str::make,
+      "three_dyn__perm1" => three_dyn__perm1::make,
+      "four_dyn__par" => four_dyn__par::make,
+      "conds__src0" => conds__src0::make,
+      "conds__runhead" => conds__runhead::make,
+      "expr_args__par" => expr_args__par::make,
+      "multi_head__par" => multi_head__par::make,
+      "facts__ser" => facts__ser::make,
+      "facts__src2" => facts__src2::make,
       "facts__srcpar" => facts__srcpar::make,
       "opt_cols__ser" => opt_cols__ser::make,
       "opt_cols__src2" => opt_cols__src2::make,
-      "cartesian__par" => cartesian__par::make,
-      "same_gen__perm2" => same_gen__perm2::make,
-      "not_reorderable__pari" => not_reorderable__pari::make,
-      "pre_join_rec__par" => pre_join_rec__par::make,
-      "two_inputs__ser" => two_inputs__ser::make,
-      "two_inputs__src0" => two_inputs__src0::make,
-      "two_inputs__srcpar" => two_inputs__srcpar::make,
-      "wild__ser" => wild__ser::make,
-      "ternary__ren" => ternary__ren::make,
-      "bound_mix__perm1" => bound_mix__perm1::make,
-      "join_chain__par" => join_chain__par::make,
-      "join_chain__strpar" => join_chain__strpar::make,
-      "reach__topar" => reach__topar::make,
-      "lag_right__par" => lag_right__par::make,
-      "lag_right__str" => lag_right__str::make,
-      "lag_three__ser" => lag_three__ser::make,
-      "lag_mid__perm1" => lag_mid__perm1::make,
-      "lag_late_delta__par" => lag_late_delta__par::make,
-      "multi_head_rec__topar" => multi_head_rec__topar::make,
-      "sp_dual__run" => sp_dual__run::make,
-      "sp_dual__redecl" => sp_dual__redecl::make,
-      "sp_weighted__ser" => sp_weighted__ser::make,
-      "longest_capped__to" => longest_capped__to::make,
-      "set_reach__mrt" => set_reach__mrt::make,
-      "set_reach__init" => set_reach__init::make,
+      "opt_cols__srcpar" => opt_cols__srcpar::make,
+      "same_gen__topar" => same_gen__topar::make,
+      "not_reorderable__ser" => not_reorderable__ser::make,
+      "not_reorderable__permpar" => not_reorderable__permpar::make,
+      "pre_join_rec__ren" => pre_join_rec__ren::make,
+      "two_inputs__mrt" => two_inputs__mrt::make,
+      "two_inputs__init" => two_inputs__init::make,
+      "two_inputs__permpar" => two_inputs__permpar::make,
+      "ternary__par" => ternary__par::make,
+      "ternary__strpar" => ternary__strpar::make,
+      "bound_mix__str" => bound_mix__str::make,
+      "join_chain__ren" => join_chain__ren::make,
+      "reach__ser" => reach__ser::make,
+      "self_join3__ser" => self_join3__ser::make,
+      "lag_right__perm1" => lag_right__perm1::make,
+      "lag_left__par" => lag_left__par::make,
+      "lag_three__topar" => lag_three__topar::make,
+      "lag_mid__str" => lag_mid__str::make,
+      "multi_head_rec__ser" => multi_head_rec__ser::make,
+      "sp_dual__par" => sp_dual__par::make,
+      "sp_dual__src1" => sp_dual__src1::make,
+      "sp_dual__runpar" => sp_dual__runpar::make,
+      "sp_weighted__pari" => sp_weighted__pari::make,
+      "set_reach__ser" => set_reach__ser::make,
+      "set_reach__src0" => set_reach__src0::make,
+      "set_reach__runhead" => set_reach__runhead::make,
       "cp__ser" => cp__ser::make,
       "lat_tree__ser" => lat_tree__ser::make,
       "lex_lat__ser" => lex_lat__ser::make,
@@ -168,55 +173,56 @@ fn lookup(name: &str) -> fn() -> Box<dyn Driven> {
       "lat_pre_join__pari" => lat_pre_join__pari::make,
       "lat_val_bound__pari" => lat_val_bound__pari::make,
       "lat_input__gen" => lat_input__gen::make,
-      "lat_input__runpar" => lat_input__runpar::make,
-      "count_paths__mrt" => count_paths__mrt::make,
-      "count_paths__init" => count_paths__init::make,
-      "neg_basic__run" => neg_basic__run::make,
-      "neg_basic__redecl" => neg_basic__redecl::make,
-      "neg_basic__exp" => neg_basic__exp::make,
-      "agg_depth__to" => agg_depth__to::make,
-      "agg_user__par" => agg_user__par::make,
-      "agg_bound_mix__par" => agg_bound_mix__par::make,
-      "agg_empty_rel__par" => agg_empty_rel__par::make,
-      "agg_const_args__exppar" => agg_const_args__exppar::make,
-      "disj__topar" => disj__topar::make,
-      "disj__srcred" => disj__srcred::make,
+      "lat_input__init3" => lat_input__init3::make,
+      "count_paths__topar" => count_paths__topar::make,
+      "count_paths__srcred" => count_paths__srcred::make,
+      "neg_basic__par" => neg_basic__par::make,
+      "neg_basic__src1" => neg_basic__src1::make,
+      "neg_basic__runpar" => neg_basic__runpar::make,
+      "agg_minmaxsum__ser" => agg_minmaxsum__ser::make,
+      "agg_lattice__ser" => agg_lattice__ser::make,
+      "neg_rec_after__ser" => neg_rec_after__ser::make,
+      "agg_empty__ser" => agg_empty__ser::make,
+      "agg_empty_rel__to" => agg_empty_rel__to::make,
+      "agg_pre_join__par" => agg_pre_join__par::make,
+      "disj__mrt" => disj__mrt::make,
+      "disj__init" => disj__init::make,
       "disj__permpar" => disj__permpar::make,
       "pat_args__ser" => pat_args__ser::make,
       "rep_expr__exp" => rep_expr__exp::make,
       "neg_in_disj__par" => neg_in_disj__par::make,
       "mac_basic__topar" => mac_basic__topar::make,
       "mac_basic__srcred" => mac_basic__srcred::make,
-      "mac_capture__par" => mac_capture__par::make,
-      "mac_nested__exppar" => mac_nested__exppar::make,
-      "mac_local_names__pari" => mac_local_names__pari::make,
-      "mac_disj__ser" => mac_disj__ser::make,
-      "stress_set__ser" => stress_set__ser::make,
-      "rnd_core_01__pari" => rnd_core_01__pari::make,
-      "rnd_core_04__par" => rnd_core_04__par::make,
-      "rnd_core_07__ser" => rnd_core_07__ser::make,
-      "rnd_core_09__pari" => rnd_core_09__pari::make,
-      "rnd_core_12__par" => rnd_core_12__par::make,
-      "rnd_core_15__ser" => rnd_core_15__ser::make,
-      "rnd_core_17__pari" => rnd_core_17__pari::make,
-      "rnd_core_20__par" => rnd_core_20__par::make,
-      "rnd_core_23__ser" => rnd_core_23__ser::make,
-      "rnd_core_25__pari" => rnd_core_25__pari::make,
-      "rnd_core_28__par" => rnd_core_28__par::make,
-      "rnd_agg_01__ser" => rnd_agg_01__ser::make,
-      "rnd_agg_03__pari" => rnd_agg_03__pari::make,
-      "rnd_agg_06__par" => rnd_agg_06__par::make,
-      "rnd_agg_09__ser" => rnd_agg_09__ser::make,
-      "rnd_agg_11__pari" => rnd_agg_11__pari::make,
-      "rnd_agg_14__par" => rnd_agg_14__par::make,
-      "rnd_prec_01__to" => rnd_prec_01__to::make,
-      "rnd_prec_03__par" => rnd_prec_03__par::make,
-      "rnd_prec_04__topar" => rnd_prec_04__topar::make,
-      "rnd_prec_06__pari" => rnd_prec_06__pari::make,
-      "rnd_prec_08__ser" => rnd_prec_08__ser::make,
-      "rnd_prea_02__ser" => rnd_prea_02__ser::make,
-      "rnd_prea_04__pari" => rnd_prea_04__pari::make,
-      "rnd_prea_07__par" => rnd_prea_07__par::make,
+      "mac_basic__exppar" => mac_basic__exppar::make,
+      "mac_nested__pari" => mac_nested__pari::make,
+      "mac_local_names__ser" => mac_local_names__ser::make,
+      "mac_block__exp" => mac_block__exp::make,
+      "stress_lat__par" => stress_lat__par::make,
+      "rnd_core_01__ser" => rnd_core_01__ser::make,
+      "rnd_core_03__pari" => rnd_core_03__pari::make,
+      "rnd_core_06__par" => rnd_core_06__par::make,
+      "rnd_core_09__ser" => rnd_core_09__ser::make,
+      "rnd_core_11__pari" => rnd_core_11__pari::make,
+      "rnd_core_14__par" => rnd_core_14__par::make,
+      "rnd_core_17__ser" => rnd_core_17__ser::make,
+      "rnd_core_19__pari" => rnd_core_19__pari::make,
+      "rnd_core_22__par" => rnd_core_22__par::make,
+      "rnd_core_25__ser" => rnd_core_25__ser::make,
+      "rnd_core_27__pari" => rnd_core_27__pari::make,
+      "rnd_core_30__par" => rnd_core_30__par::make,
+      "rnd_agg_03__ser" => rnd_agg_03__ser::make,
+      "rnd_agg_05__pari" => rnd_agg_05__pari::make,
+      "rnd_agg_08__par" => rnd_agg_08__par::make,
+      "rnd_agg_11__ser" => rnd_agg_11__ser::make,
+      "rnd_agg_13__pari" => rnd_agg_13__pari::make,
+      "rnd_prec_01__par" => rnd_prec_01__par::make,
+      "rnd_prec_02__topar" => rnd_prec_02__topar::make,
+      "rnd_prec_04__pari" => rnd_prec_04__pari::make,
+      "rnd_prec_06__ser" => rnd_prec_06__ser::make,
+      "rnd_prec_07__to" => rnd_prec_07__to::make,
+      "rnd_prea_01__par" => rnd_prea_01__par::make,
+      "rnd_prea_04__ser" => rnd_prea_04__ser::make,
+      "rnd_prea_06__pari" => rnd_prea_06__pari::make,
       _ => panic!("no such program variant in this shard: {}", name),
    }
 }
